@@ -290,6 +290,21 @@ def _run_query_once(q, root, seed):
                 open(rf, 'w').write('# query %s property %s (%s)\n' % (q.name, pid, desc) + '\n'.join(str(v) for v in tr) + '\n')
                 rn, on = run_exe(info['exe_n'], 'replay', rf)
                 reproduced = ('ASSERT-FAIL %d' % aid) in on.split('\n')
+                if not reproduced and q.uf_mul and aid < 900:
+                    # counterexample of the abstract model (uninterpreted multiplication): concretise it by keeping its
+                    # structural choices and re-drawing the wide values (ids, multipliers) until the native build fails too
+                    import random
+                    rnd = random.Random(seed * 7919 + aid)
+                    for attempt in range(400):
+                        tr2 = [(rnd.getrandbits(64) if rnd.random() < 0.7 else rnd.getrandbits(rnd.choice((4, 8, 16, 40)))) if v > (1 << 20) else v for v in tr]
+                        rf2 = rf + '.c%d' % attempt
+                        open(rf2, 'w').write('# concretised from abstract counterexample of %s (%s)\n' % (pid, desc) + '\n'.join(str(v) for v in tr2) + '\n')
+                        rn2, on2 = run_exe(info['exe_n'], 'replay', rf2)
+                        if ('ASSERT-FAIL %d' % aid) in on2.split('\n'):
+                            reproduced, tr, rf, on = True, tr2, rf2, on2
+                            res['notes'].append('assert %d: abstract counterexample concretised after %d native re-draws' % (aid, attempt + 1))
+                            break
+                        os.unlink(rf2)
                 if aid >= 900:
                     if aid in q.covers:
                         if q.uf_mul and not reproduced:
@@ -304,7 +319,7 @@ def _run_query_once(q, root, seed):
                             res['notes'].append('witness %d not reproduced natively: %s' % (aid, on[-300:]))
                     continue
                 if aid >= 8000:
-                    raise Inconclusive('bound exceeded (capacity/assert id %d) in %s' % (aid, q.name))
+                    raise Inconclusive('bound exceeded or library throw helper reached (assert id %d) in %s' % (aid, q.name))
                 v = {'assert_id': aid, 'cbmc_property': pid, 'inputs': tr[:64], 'replay_file': rf,
                      'reproduced_natively': reproduced, 'native_output': on.split('\n')[-8:]}
                 if reproduced:
@@ -343,7 +358,7 @@ def run_query(q, root, seed):
     """Abstraction refinement for uf_mul queries: a proof with 64x64 multiplication as an uninterpreted function holds
     for the real multiplication too; a failure under the abstraction is re-decided with the precise bit-level encoding."""
     r = _run_query_once(q, root, seed)
-    if q.uf_mul and (r.get('unreproduced') or r['violations'] or r['status'] == 'check-failure'):
+    if q.uf_mul and (r.get('unreproduced') or r['status'] == 'check-failure'):
         import copy
         q2 = copy.copy(q)
         q2.uf_mul = False
@@ -376,7 +391,7 @@ def load_known(pid):
     return out
 
 
-def run_property(pid, tier, queries, level='model_checking', assumptions=(), trusted=(), workers=None, keep=False, partial=False):
+def run_property(pid, tier, queries, level='model_checking', assumptions=(), trusted=(), workers=None, keep=False, partial=False, extra=None):
     """Run all queries of a property; write evidence; print VIOLATION / KNOWN-FINDING lines; return exit code."""
     t0 = time.time()
     seed = int(os.environ.get('VERIF_SEED', '1') or 1)
@@ -393,6 +408,10 @@ def run_property(pid, tier, queries, level='model_checking', assumptions=(), tru
             print('  [%s] %-40s %-13s %6.1fs  props %s/%s  %s' % (
                 pid, r['query'], r['status'], r['wall_s'], r.get('properties_success', '-'), r.get('properties_checked', '-'),
                 '; '.join(n.split('\n')[0][:160] for n in r['notes'])), flush=True)
+    if extra and not partial:
+        for r in extra(tier, root):
+            results.append(r)
+            print('  [%s] %-40s %-13s %6.1fs  %s' % (pid, r['query'], r['status'], r.get('wall_s', 0), '; '.join(r.get('notes', []))[:200]), flush=True)
     results.sort(key=lambda r: r['query'])
     replay_dir = os.path.join(VERIF, 'replays', pid)
     violations = []
